@@ -7,7 +7,10 @@ only *observes*; every verdict is computed by the Lean driver.
 Case format (JSON): [thr, ops]  with ops
   ["new", d, [[ix, v0, v1, ...], ...]]   create dataset d (not in the collection); ix 0 is the pixel cid
   ["app", d] / ["rem", d]                dc.append / dc.remove
-  ["addc", d, ix, v0, ...] / ["remc", d, ix]
+  ["addc", d, ix, v0, ...] / ["remc", d, ix]   (remc of a stored or derived attribute: cascades)
+  ["addd", d, id, [cid...], ix, coeffs, off]   data.add_component_link(ComponentLink(froms, (d, ix), using=f), (d, ix)):
+                                         an internal derived attribute; `id` = object id of its link
+  ["upid", d, old, new]                  data.update_id((d, old), (d, new))
   ["addl", E] / ["addls", E, ...]        dc.add_link(entry) / dc.add_link([entries])
   ["reml", id] / ["remls", id, ...]      dc.remove_link(obj) / dc.remove_link([objs])
   ["db"] / ["de"]                        enter / leave `with dc.delay_link_manager_update()`
@@ -58,6 +61,16 @@ class World:
         self.robj = {}      # id(python object) -> object id
         self.keep = []      # strong references
         self.ctx = []       # open delay context managers
+        # the iteration order of the link set at the LAST update_externally_derivable_components()
+        # call of the current operation (every call overwrites what the previous one installed)
+        self.last_order = None
+        lm = self.dc._link_manager
+        orig = lm.update_externally_derivable_components
+
+        def recording_update(*a, **k):
+            self.last_order = [self.robj.get(id(l), 0) for l in (lm._links | lm._inverse_links)]
+            return orig(*a, **k)
+        lm.update_externally_derivable_components = recording_update
 
     # -- cids ------------------------------------------------------------------------------
     def get_cid(self, c):
@@ -127,6 +140,7 @@ class World:
     # -- operations ------------------------------------------------------------------------
     def do(self, op):
         k = op[0]
+        self.last_order = None
         try:
             if k == "new":
                 d = op[1]
@@ -158,6 +172,18 @@ class World:
                 d, ix = op[1], op[2]
                 if d in self.data:
                     self.data[d].remove_component(self.get_cid((d, ix)))
+            elif k == "addd":
+                d, i, froms, ix, coeffs, off = op[1:]
+                if d in self.data:
+                    cid = self.get_cid((d, ix))
+                    if cid not in self.data[d].components:
+                        link = ComponentLink([self.get_cid(c) for c in froms], cid, using=mkfn(coeffs, off))
+                        self.reg(i, link)
+                        self.data[d].add_component_link(link, cid)
+            elif k == "upid":
+                d, old, new = op[1:]
+                if d in self.data and old != new:
+                    self.data[d].update_id(self.get_cid((d, old)), self.get_cid((d, new)))
             elif k == "addl":
                 self.dc.add_link(self.get_entry(op[1]))
             elif k == "addls":
@@ -217,7 +243,9 @@ class World:
 
     def observe(self, status, univ, thr, with_masks):
         lm = self.dc._link_manager
-        order = [self.robj.get(id(l), 0) for l in (lm._links | lm._inverse_links)]
+        order = self.last_order
+        if order is None:
+            order = [self.robj.get(id(l), 0) for l in (lm._links | lm._inverse_links)]
         ext = [self.robj.get(id(l), 0) for l in self.dc.external_links]
         dss = []
         rdata = {id(v): k for k, v in self.data.items()}
@@ -237,6 +265,10 @@ def op_cids(op):
         return [(op[1], comp[0]) for comp in op[2]]
     if k in ("addc", "remc"):
         return [(op[1], op[2])]
+    if k == "addd":
+        return [(op[1], op[4])] + [tuple(c) for c in op[3]]
+    if k == "upid":
+        return [(op[1], op[2]), (op[1], op[3])]
     if k == "addl":
         return entry_cids(op[1])
     if k == "addls":
@@ -361,7 +393,7 @@ class HistBase(Family):
         self._last_world = w   # strong reference until the next case
         for k, op in enumerate(ops):
             st = w.do(op)
-            out.append(w.observe(st, univ, thr, with_masks=(k == len(ops) - 1 or op[0] in ("de", "remc", "rem"))))
+            out.append(w.observe(st, univ, thr, with_masks=(k == len(ops) - 1 or op[0] in ("de", "remc", "rem", "upid"))))
         # open delay blocks are simply abandoned with the World (never run glue code outside the
         # per-case alarm: a hanging implementation must stay interruptible)
         return out
@@ -595,6 +627,151 @@ class Structured(HistBase):
         return link_twoway(ids, f, t, 2, k, 3, -k)
 
 
+
+def addd(ids, d, froms, ix, coeffs, off):
+    return ["addd", d, ids.next(), [list(c) for c in froms], ix, list(coeffs), off]
+
+
+def entry_id(E):
+    return E[1] if E[0] == "c" else E[1][0]
+
+
+class Derived(HistBase):
+    """Internal derived attributes (and pixel ids) as link endpoints, exhaustive small core: dataset 0
+    has stored x=(0,1), y=(0,2) and derived A=(0,3)=f(x) [depth 1], B=(0,4)=g(A) [depth 2],
+    C=(0,5)=x+2y, P=(0,6)=h(pixel), Q=(0,7)=P+A [depth 2]; an external link of every kind, in both
+    directions, between each of them (or the pixel id) and an attribute of dataset 1 (optionally
+    continued to dataset 2); then removal of each root / intermediate / endpoint (cascades), inside
+    and outside delay blocks, dataset removal and re-append, link removal, update_id of a root or of
+    the endpoint followed by the root's removal, datasets outside the collection."""
+    name = "derived"
+    exhaustive = True
+    budget_share = 0.9
+
+    X, Y, A, B, C, P, Q = 1, 2, 3, 4, 5, 6, 7
+
+    def der_ops(self, ids, d=0, which="ABCPQ"):
+        out = []
+        if "A" in which:
+            out.append(addd(ids, d, [(d, 1)], 3, [2], 1))
+        if "B" in which:
+            out.append(addd(ids, d, [(d, 3)], 4, [3], -1))
+        if "C" in which:
+            out.append(addd(ids, d, [(d, 1), (d, 2)], 5, [1, 2], 0))
+        if "P" in which:
+            out.append(addd(ids, d, [(d, 0)], 6, [2], 1))
+        if "Q" in which:
+            out.append(addd(ids, d, [(d, 6), (d, 3)], 7, [1, 1], 0))
+        return out
+
+    def mk(self, ids, kind, f, t, k=0):
+        if kind == "ow":
+            return oneway(ids, [f], t, [2 + k], 1 - k)
+        if kind == "tw":
+            return twoway_obj(ids, f, t, -1 if k % 2 else 1, 2 + k)
+        if kind == "id":
+            return ident_obj(ids, f, t)
+        if kind == "same":
+            return link_same(ids, f, t)
+        if kind == "twc":
+            return link_twoway(ids, f, t, 2, k, 3, -k)
+        raise ValueError(kind)
+
+    def base(self, ids, n, when):
+        layout = {0: [1, 2], 1: [1, 2], 2: [1]}
+        news = [new_op(d, ixs, n) for d, ixs in sorted(layout.items())]
+        apps = [["app", d] for d in sorted(layout)]
+        der = self.der_ops(ids)
+        return news + der + apps if when == "before" else news + apps + der
+
+    def removals(self, E, e_ix, quick):
+        eid = entry_id(E)
+        out = [[], [["remc", 0, 1]], [["remc", 0, 2]], [["remc", 0, 3]],
+               [["db"], ["remc", 0, 1], ["de"]],
+               [["rem", 0]], [["rem", 0], ["app", 0]],
+               [["reml", eid]],
+               [["upid", 0, 1, 9], ["remc", 0, 9]]]
+        if e_ix != 0:
+            out.append([["remc", 0, e_ix]])
+            out.append([["upid", 0, e_ix, 8], ["remc", 0, 1]])
+        if e_ix in (6, 7):
+            out.append([["remc", 0, 6]])
+        if not quick:
+            out.append([["db"], ["remc", 0, 3], ["rem", 1], ["de"]])
+            out.append([["remc", 0, 1], ["remc", 0, 2]])
+            out.append([["upid", 0, 3, 9], ["remc", 0, 9]])
+            out.append([["db"], ["upid", 0, 1, 9], ["remc", 0, 9], ["de"]])
+        return out
+
+    def cases(self, tier, rng):
+        quick = tier == "quick"
+        for n, when in ((2, "after"), (3, "before")) if quick else ((2, "after"), (2, "before"), (3, "after"), (3, "before")):
+            for e_ix in (3, 4, 5, 6, 7, 0) if not (quick and n == 3) else (3, 4, 0):
+                E0 = (0, e_ix)
+                variants = []
+                for kind in ("ow", "tw", "id", "same", "twc"):
+                    variants.append(("f", kind))
+                    variants.append(("t", kind))
+                variants += [("mf", "multi"), ("mt", "multi"), ("mo", "ow2")]
+                for dirn, kind in variants:
+                    for chain in (0, 1):
+                        if quick and chain and kind not in ("ow", "same"):
+                            continue
+                        ids = Ids()
+                        ops = self.base(ids, n, when)
+                        if dirn == "f":
+                            E = self.mk(ids, kind, E0, (1, 1))
+                        elif dirn == "t":
+                            E = self.mk(ids, kind, (1, 1), E0)
+                        elif dirn == "mf":
+                            E = link_multi(ids, [E0, (0, 2)], (1, 1), [1, 2], 1)
+                        elif dirn == "mt":
+                            E = link_multi(ids, [(1, 1), (1, 2)], E0, [2, 1], 0)
+                        else:
+                            E = oneway(ids, [(1, 0), E0], (1, 1), [1, 3], 0)
+                        ops = ops + [["addl", E]]
+                        if chain:
+                            ops = ops + [["addl", oneway(ids, [(1, 1)], (2, 1), [3], 1)]]
+                        for rm in self.removals(E, e_ix, quick):
+                            yield [2, ops + rm]
+            # several derived endpoints linked at once, each root removed
+            for kinds in itertools.product(("ow", "id", "same"), repeat=2):
+                ids = Ids()
+                ops = self.base(ids, n, when)
+                es = [self.mk(ids, kinds[0], (0, 3), (1, 1)), self.mk(ids, kinds[1], (1, 2), (0, 4), 1),
+                      self.mk(ids, "tw", (0, 5), (2, 1), 2), self.mk(ids, "ow", (0, 7), (1, 0), 3)]
+                ops = ops + [["addl", e] for e in es]
+                for rm in ([["remc", 0, 1]], [["remc", 0, 2]], [["remc", 0, 3]], [["remc", 0, 6]],
+                           [["db"], ["remc", 0, 1], ["de"]], [["db"], ["remc", 0, 6], ["remc", 0, 2], ["de"]],
+                           [["rem", 0]], [["remc", 0, 4], ["remc", 0, 3], ["remc", 0, 1]]):
+                    yield [1, ops + rm]
+            # another link reaches a derived attribute of its own dataset first / at the same cost
+            for tgt in (3, 4, 7):
+                for kind in ("ow", "tw", "id"):
+                    ids = Ids()
+                    ops = self.base(ids, n, when)
+                    es = [self.mk(ids, kind, (0, 2), (0, tgt)), self.mk(ids, "ow", (0, tgt), (1, 1), 1),
+                          self.mk(ids, "id", (1, 2), (0, 4), 2)]
+                    for perm in ((0, 1, 2), (1, 0, 2), (2, 1, 0)):
+                        cur = ops + [["addl", es[i]] for i in perm]
+                        for rm in ([], [["remc", 0, 1]], [["remc", 0, 2]], [["remc", 0, 3]]):
+                            yield [1, cur + rm]
+            # the dataset is outside the collection when the root goes (hub known / never appended)
+            for e_ix in (3, 4):
+                for kind in ("ow", "id", "same"):
+                    ids = Ids()
+                    news = [new_op(d, ixs, n) for d, ixs in sorted({0: [1, 2], 1: [1, 2], 2: [1]}.items())]
+                    der = self.der_ops(ids)
+                    E = self.mk(ids, kind, (0, e_ix), (1, 1))
+                    yield [2, news + der + [["app", 0], ["app", 1], ["app", 2], ["rem", 0], ["addl", E], ["remc", 0, 1], ["app", 0]]]
+                    yield [2, news + der + [["app", 1], ["app", 2], ["addl", E], ["remc", 0, 1], ["app", 0]]]
+                    yield [2, news + [["app", 0], ["app", 1], ["app", 2]] + der + [["addl", E], ["rem", 0], ["app", 0], ["remc", 0, 1]]]
+            # a derived attribute whose input is missing is refused (ValueError), nothing changes
+            ids = Ids()
+            ops = self.base(ids, n, when)
+            yield [1, ops + [["addd", 0, ids.next(), [[1, 1]], 8, [1], 0], ["addd", 0, ids.next(), [[0, 1], [0, 9]], 8, [1, 1], 0]]]
+
+
 class Histories(HistBase):
     """Seeded random histories of add/remove link, component, dataset, with and without delay."""
     name = "hist"
@@ -602,7 +779,7 @@ class Histories(HistBase):
     budget_share = 1.2
 
     def cases(self, tier, rng):
-        count = 12000 if tier == "quick" else 150000
+        count = 7000 if tier == "quick" else 150000
         for _ in range(count):
             yield self.one(rng, tier)
 
@@ -612,9 +789,61 @@ class Histories(HistBase):
         maxlen = rng.randint(3, 8 if tier == "quick" else 14)
         layout = {d: list(range(1, rng.randint(1, 3) + 1)) for d in range(nds)}
         in_dc = [d for d in range(nds) if rng.random() < 0.85]
-        ops = setup_ops(layout, n, in_dc)
         ids = Ids()
-        comps = {d: list(ixs) for d, ixs in layout.items()}      # current main components
+        comps = {d: list(ixs) for d, ixs in layout.items()}      # current components (stored and derived)
+        dep = {d: {} for d in layout}                             # derived ix -> input ixs
+        nextix = {d: max(ixs) + 1 for d, ixs in layout.items()}   # never reuse an index
+        with_derived = rng.random() < 0.6
+
+        def fresh(d):
+            nextix[d] += 1
+            return nextix[d] - 1
+
+        def new_derived(d):
+            pool = list(comps[d]) + ([0] if rng.random() < 0.2 else [])
+            if not pool:
+                return None
+            k = 2 if (len(pool) >= 2 and rng.random() < 0.3) else 1
+            froms = rng.sample(pool, k)
+            if dep[d] and rng.random() < 0.5:      # prefer chains: read a derived attribute
+                froms[0] = rng.choice(sorted(dep[d]))
+                if k == 2 and froms[1] == froms[0]:
+                    froms = froms[:1]
+            ix = fresh(d)
+            comps[d].append(ix)
+            dep[d][ix] = list(froms)
+            # (coefficients no external link uses: an internal link is never equal, as a value, to an
+            # external one between the same attributes)
+            coeffs = [rng.choice((4, -3, 5))] if len(froms) == 1 else [3, rng.choice((1, 2))]
+            return addd(ids, d, [(d, f) for f in froms], ix, coeffs, rng.randint(-2, 2))
+
+        def drop_comp(d, ix):
+            gone = {ix}
+            grew = True
+            while grew:
+                grew = False
+                for z, fr in dep[d].items():
+                    if z not in gone and any(f in gone for f in fr):
+                        gone.add(z)
+                        grew = True
+            comps[d] = [c for c in comps[d] if c not in gone]
+            for z in gone:
+                dep[d].pop(z, None)
+
+        ops = [new_op(d, ixs, n) for d, ixs in sorted(layout.items())]
+        if with_derived:
+            for d in sorted(layout):          # defined before the dataset enters the collection
+                for _ in range(rng.choice((0, 0, 1, 2))):
+                    o = new_derived(d)
+                    if o:
+                        ops.append(o)
+        ops += [["app", d] for d in sorted(layout) if d in in_dc]
+        if with_derived:
+            for d in sorted(layout):          # ... and after
+                for _ in range(rng.choice((0, 1, 1, 2))):
+                    o = new_derived(d)
+                    if o:
+                        ops.append(o)
         indc = set(in_dc)
         entries = []     # entries created so far
         stored = []      # ids believed stored
@@ -631,18 +860,31 @@ class Histories(HistBase):
 
         def any_cids():
             out = live_cids()
+            if with_derived and rng.random() < 0.5:
+                # favour derived endpoints
+                der = [(d, ix) for d in sorted(indc) for ix in sorted(dep[d])]
+                out = out + der + der
             if rng.random() < 0.3:
                 out = out + free
             if rng.random() < 0.1:   # ill-formed: cids of datasets outside the collection
                 out = out + [(d, ix) for d in comps if d not in indc for ix in comps[d]]
             return out
 
+        def pick(pool, k):
+            got = []
+            for c in rng.sample(pool, len(pool)):
+                if c not in got:
+                    got.append(c)
+                if len(got) == k:
+                    break
+            return got
+
         def new_entry():
             pool = any_cids()
-            if len(pool) < 2:
+            if len(set(pool)) < 2:
                 return None
             r = rng.random()
-            f, t = rng.sample(pool, 2)
+            f, t = pick(pool, 2)
             if r < 0.22:
                 return oneway(ids, [f], t, [rng.choice((2, 3, -2, 1))], rng.randint(-3, 3))
             if r < 0.42:
@@ -653,19 +895,16 @@ class Histories(HistBase):
                 return link_same(ids, f, t)
             if r < 0.75:
                 return link_twoway(ids, f, t, rng.choice((1, 2)), rng.randint(-2, 2), rng.choice((1, 3)), rng.randint(-2, 2))
-            if len(pool) >= 3:
-                f1, f2, t = rng.sample(pool, 3)
+            if len(set(pool)) >= 3:
+                f1, f2, t = pick(pool, 3)
                 if r < 0.9:
                     return oneway(ids, [f1, f2], t, [rng.choice((1, 2)), rng.choice((1, -1))], rng.randint(-1, 1))
                 return link_multi(ids, [f1, f2], t, [1, rng.choice((1, 2))], rng.randint(0, 2))
             return oneway(ids, [f], t, [2], 1)
 
-        def entry_id(E):
-            return E[1] if E[0] == "c" else E[1][0]
-
         for _ in range(maxlen):
             r = rng.random()
-            if r < 0.42:
+            if r < 0.40:
                 if entries and rng.random() < 0.12:
                     E = rng.choice(entries)          # the same object again
                     if E[0] == "s" and E[1][5] is not None and rng.random() < 0.5:
@@ -688,7 +927,7 @@ class Histories(HistBase):
                         continue
                 ops.append(["addl", E])
                 stored.append(entry_id(E))
-            elif r < 0.57:
+            elif r < 0.53:
                 if not stored:
                     continue
                 if rng.random() < 0.1:
@@ -703,29 +942,50 @@ class Histories(HistBase):
                     i = rng.choice(stored)
                     stored.remove(i)
                     ops.append(["reml", i])
-            elif r < 0.67:
+            elif r < 0.66:
                 d = rng.choice(sorted(comps))
                 if comps[d] and (len(comps[d]) > 1 or rng.random() < 0.3):
-                    ix = rng.choice(comps[d])
-                    comps[d].remove(ix)
+                    roots = [ix for ix in comps[d] if any(ix in fr for fr in dep[d].values())]
+                    ix = rng.choice(roots) if roots and rng.random() < 0.5 else rng.choice(comps[d])
+                    drop_comp(d, ix)
                     ops.append(["remc", d, ix])
-            elif r < 0.75:
+            elif r < 0.72:
                 d = rng.choice(sorted(comps))
-                ix = max([0] + comps[d] + [3]) + 1
+                ix = fresh(d)
                 comps[d].append(ix)
                 ops.append(["addc", d, ix] + base_values(d, ix, n))
-            elif r < 0.83:
+            elif r < 0.77:
+                if with_derived:
+                    o = new_derived(rng.choice(sorted(comps)))
+                    if o:
+                        if rng.random() < 0.05:      # an input that is not a component: ValueError
+                            d, ix = o[1], o[4]
+                            o[3][0] = [d, 90]
+                            comps[d].remove(ix)
+                            dep[d].pop(ix)
+                        ops.append(o)
+            elif r < 0.80:
+                d = rng.choice(sorted(comps))
+                if with_derived and comps[d]:
+                    mentioned = set(c for E in entries for c in entry_cids(E))
+                    quiet = [ix for ix in comps[d] if (d, ix) not in mentioned]
+                    old = rng.choice(quiet) if quiet and rng.random() < 0.8 else rng.choice(comps[d])
+                    new = fresh(d)
+                    comps[d] = [new if c == old else c for c in comps[d]]
+                    dep[d] = {(new if z == old else z): [new if f == old else f for f in fr] for z, fr in dep[d].items()}
+                    ops.append(["upid", d, old, new])
+            elif r < 0.86:
                 if indc:
                     d = rng.choice(sorted(indc))
                     indc.discard(d)
                     ops.append(["rem", d])
-            elif r < 0.90:
+            elif r < 0.92:
                 out = [d for d in comps if d not in indc]
                 if out:
                     d = rng.choice(out)
                     indc.add(d)
                     ops.append(["app", d])
-            elif r < 0.96:
+            elif r < 0.97:
                 if depth < 2:
                     depth += 1
                     ops.append(["db"])
@@ -743,16 +1003,20 @@ PROP = Property(
     id="C03",
     title="Linked attributes are reachable exactly through links and carry composed values",
     theorems=["C03.discover_terminates", "C03.discover_reachable", "C03.discover_depth_min", "C03.discover_value",
-              "C03.spec_local_implies_composed", "C03.specDepth_reachable", "C03.manager_inv", "C03.manager_reads",
+              "C03.spec_local_implies_composed", "C03.specDepth_reachable", "C03.manager_inv", "C03.manager_reads", "C03.derived_reads_internal",
               "C03.selection_via_links", "C03.manager_no_dangling", "C03.removal_forgets",
               "C03.list_op_raising_midway_synced"],
-    families=[Structured(), Shapes(), Histories()],
+    families=[Structured(), Shapes(), Derived(), Histories()],
     trusted_base=["CPython set iteration order is deterministic for two sets built the same way in one process "
                   "(the observed order of `_links | _inverse_links` is fed to the model's literal loop; the Spec does not depend on it)",
                   "numpy integer/float arithmetic on small integers is exact"],
-    assumptions=["link functions are the generated integer affine / two-input linear maps; datasets have no coordinates, "
-                 "no internal derived components and no key joins"],
+    assumptions=["link functions are the generated integer affine / two-input linear maps; datasets have no world coordinates "
+                 "and no key joins; internal derived attributes are defined by links without inverse",
+                 "manager_inv / manager_no_dangling: well-formed histories (runWf); value clauses of manager_reads / "
+                 "selection_via_links: internalFirst (the oracle itself covers all generated histories)"],
     rule="exhaustive: all sequences of <=2 (thorough <=3) links of four kinds over a 5-cid pool; chains/cycles/diamonds/multi-input/"
-         "duplicate/inverse/link-helper structures with every single removal; seeded random histories beyond; non-trivial = some "
-         "dataset reads a foreign attribute at some step",
+         "duplicate/inverse/link-helper structures with every single removal; internal derived attributes (depth 1 and 2, two-input, "
+         "pixel-based) and pixel ids as from/to endpoint of every link kind with removal of each root / intermediate / endpoint "
+         "(cascade), in and outside delay blocks, dataset removal, update_id; seeded random histories mixing all of these beyond; "
+         "non-trivial = some dataset reads a foreign attribute at some step",
 )
